@@ -8,10 +8,6 @@ import CifModel.Lemmas.StoreRefineQ
 namespace CifModel.Store
 open Gen.ErrCodes
 
-/-- the iterator as the documented model sees it -/
-def absIter (it : Iter) (s : Store) : AIter :=
-  { cid := it.cid, num := it.loopNum, done := it.doneIn s.db, hasCur := decide (0 < it.prev), start := absS (s.txn.getD s.db) }
-
 theorem findLoop_of_iter (it : Iter) (d : Db) (h : IterOk it d) (hinv : Inv d) :
     ∃ x ∈ d.loops, x.cid = it.cid ∧ x.loopNum = it.loopNum ∧ (absS d).findLoop it.cid it.loopNum = some (absALoop d x) := by
   obtain ⟨x, hx, k1, k2⟩ := h.loop
